@@ -54,7 +54,8 @@ func (g *gen) scalar(s *crypto.Scheme) kyber.Scalar {
 func (g *gen) point(s *crypto.Scheme) kyber.Point { return s.KeyGroup.Point().Mul(g.scalar(s), nil) }
 
 func (g *gen) addr() string {
-	hosts := []string{"127.0.0.1", "node.example.org", "10.1.2.3", "[::1]", "drand-7.test"}
+	hosts := []string{"127.0.0.1", "node.example.org", "10.1.2.3", "[::1]", "drand-7.test",
+		"Drand2.Example.ORG", "NODE-7.Test.", "[2001:DB8::A]", "Relay.drand.example.", "LocalHost"}
 	return fmt.Sprintf("%s:%d", hosts[g.r.Intn(len(hosts))], 1+g.r.Intn(65535))
 }
 
